@@ -30,6 +30,12 @@ func (c contract) key() string { return c.file + "|" + c.pkg + "|" + c.decl }
 
 var notes = map[string]string{}
 
+var requiresOf = map[string][]string{}
+
+// withRequires records the requires clauses the check honours (its inputs are restricted to them); compared with
+// the spec file like the ensures clauses.
+func (c contract) withRequires(rs ...string) contract { requiresOf[c.key()] = rs; return c }
+
 // withNote attaches a remark shown in COVERAGE.md (e.g. which clauses have no executable content).
 func (c contract) withNote(s string) contract { notes[c.key()] = s; return c }
 
@@ -118,6 +124,9 @@ func scan(display string, text string, pkg string, strip func(string) (string, b
 			}
 			i++
 			s := norm(l2)
+			if strings.HasPrefix(s, "#") || strings.HasPrefix(s, "//") { // a comment line inside the contract
+				continue
+			}
 			w := strings.Fields(s)[0]
 			switch {
 			case w == "ensures":
@@ -184,9 +193,11 @@ func describe(cs []contract) (string, []string, []string) {
 	for _, c := range cs {
 		if strings.HasPrefix(c.file, "@") { // not a spec-file contract (engine intrinsic): a literal label
 			names = append(names, c.file[1:])
+			keys = append(keys, "@intrinsic")
 			continue
 		}
 		line := fmt.Sprint(c.line)
+		origKey := c.key()
 		if specDir != "" {
 			d := declByKey[c.key()]
 			if d == nil { // moved to another spec file? accept a unique declaration of the same function elsewhere
@@ -211,6 +222,13 @@ func describe(cs []contract) (string, []string, []string) {
 				var want []string
 				for _, e := range c.ensures {
 					want = append(want, norm(e))
+				}
+				var wantReq []string
+				for _, e := range requiresOf[origKey] {
+					wantReq = append(wantReq, norm(e))
+				}
+				if strings.Join(wantReq, "\n") != strings.Join(d.requires, "\n") {
+					stale = append(stale, fmt.Sprintf("stale translation: the requires clauses of %s at %s:%d are now %q, this check assumes %q", c.short(), c.file, d.line, d.requires, wantReq))
 				}
 				if strings.Join(want, "\n") != strings.Join(d.ensures, "\n") {
 					stale = append(stale, fmt.Sprintf("stale translation: the ensures clauses of %s at %s:%d are now %q, this check was translated from %q", c.short(), c.file, d.line, d.ensures, want))
@@ -400,7 +418,12 @@ func printCoverage() {
 			}
 		}
 	}
-	fmt.Printf("* engine intrinsic for sort.Slice / sort.SliceStable (no side condition on the comparator): see the last section\n")
+	for _, o := range outcomes["@intrinsic"] {
+		if o.failed > 0 {
+			nf++
+			fmt.Printf("* engine intrinsic (see the section on intrinsics) — %d of %d cases in \"%s\": `%s`\n", o.failed, o.cases, o.title, strings.ReplaceAll(o.example, "`", "'"))
+		}
+	}
 	if nf == 0 {
 		fmt.Printf("\n(no spec-file contract was refuted at this bound)\n")
 	}
